@@ -190,6 +190,8 @@ def scenario(k: Kernel, plan, obs):
 
     st.multiprocessing = MP
     from sim.prims import install_threading_shims
+    from sim.kernel import patch_threading
+    patch_threading(k)      # a thread the code under test may start becomes a task of the kernel
     install_threading_shims(k, [st])
     tmp = obs["tmpdir"]
     if plan["torn"] or plan["write_fault"]:
